@@ -29,15 +29,17 @@ func New() *Iterator {
 
 // Finish is called be the storage to signal the end of the query results.
 func (it *Iterator) Finish(err error) {
+	// Store the error before closing the stream, so that a consumer that has
+	// drained Next always sees it.
+	it.errLock.Lock()
+	it.err = err
+	it.errLock.Unlock()
+	verifYield("iterator.Finish")
+
 	close(it.Next)
 	if it.doneClosed.SetToIf(false, true) {
 		close(it.Done)
 	}
-	verifYield("iterator.Finish")
-
-	it.errLock.Lock()
-	defer it.errLock.Unlock()
-	it.err = err
 }
 
 // Cancel is called by the iteration consumer to cancel the running query.
